@@ -268,10 +268,9 @@ func (c *AdapterProxy) doKeepAlive() {
 
 	msg.Adp = c
 	atomic.AddInt32(&c.servantProxy.queueLen, 1)
-	defer func() {
-		CheckPanic()
-		atomic.AddInt32(&c.servantProxy.queueLen, -1)
-	}()
+	defer atomic.AddInt32(&c.servantProxy.queueLen, -1)
+	// recover() only works when the deferred function calls it directly
+	defer CheckPanic()
 	if err := c.Send(msg.Req); err != nil {
 		c.failAdd()
 		return
